@@ -26,7 +26,7 @@ Definition insert (d : t) (p : Z) : option (t * bool) :=
     let diff := p - next d in
     if U64_MAX <=? p then None
     else
-      let w1 := (Z.shiftl (window d) 1 mod W_MOD) + 1 in  (* bit 0 of the shifted value is clear *)
+      let w1 := Z.lor (Z.shiftl (window d) 1 mod W_MOD) 1 in
       let w' := if diff <? BITS then Z.shiftl w1 diff mod W_MOD else 0 in
       Some (mk w' (p + 1), false)
   else
@@ -54,7 +54,7 @@ Definition smallest_missing (d : t) (lower upper : Z) : option (option Z) :=
       else
         let mask := if rl =? BITS then W_MOD - 1
                     else Z.shiftl (2 ^ rl - 1) so mod W_MOD in
-        let gaps := Z.land (W_MOD - 1 - window d) mask in
+        let gaps := Z.land (Z.lnot (window d)) mask in   (* !window & mask; mask < 2^128 *)
         let off := if gaps =? 0 then 0 else Z.log2 gaps + 1 in
         if highest <? off then None
         else
